@@ -120,8 +120,50 @@ def known_matcher(v, k):
                 v.get("kind") == "evaluation-failed" and v.get("detail", {}).get("kind") == "DivisionByZero"):
             return False
         x = float(v["x"])
-        return x < 0 or x >= sig["positive_argument_from"]
+        if not (x < 0 or x >= sig["positive_argument_from"]):
+            return False
+        # narrow: the observation must be what the naive formula ln(sqrt(1 + 1/x^2) + 1/x) gives in f64 (its cancellation
+        # is the listed defect); anything else on these rows - e.g. NaN where the naive formula is accurate - is reported
+        want = _naive_acsch_round_trip(v["row"], x)
+        if v.get("kind") == "evaluation-failed":
+            return want == "div0"
+        if want == "div0" or "got" not in v and v.get("kind") != "round-trip-not-finite":
+            return False
+        got = float(v["got"]) if "got" in v else float("nan")
+        if want != want or got != got:
+            return want != want and got != got
+        if abs(want) == float("inf") or abs(got) == float("inf"):
+            return want == got
+        return abs(got - want) <= 1e-6 * abs(want) + 1e-9
     return False
+
+
+def _naive_acsch(v):
+    if v == 0:
+        return float("nan")
+    arg = math.sqrt(1 + 1 / (v * v)) + 1 / v
+    if arg != arg or arg < 0:
+        return float("nan")
+    if arg == 0:
+        return float("-inf")
+    return math.log(arg)
+
+
+def _naive_acsch_round_trip(row, x):
+    """the round trip of the row computed with the naive acsch in f64: a float, or "div0" """
+    try:
+        if row.startswith("acsch(csch("):
+            s = math.sinh(x)
+            return _naive_acsch(1 / s) if s != 0 else float("nan")
+        a = _naive_acsch(x)
+        if a == 0:
+            return "div0"
+        if a != a:
+            return float("nan")
+        s = math.sinh(a)
+        return 1 / s if s != 0 else "div0"
+    except OverflowError:
+        return float("nan")
 
 
 # ---------------------------------------------------------------------------------------------
